@@ -233,6 +233,7 @@ InsertClausesI(e) ==
        C13_invalid_option_value_rejected |-> badopt => ~Ok(e),
        C11_no_collision_adds_entry |-> (~degenerate /\ coll = {}) => (Ok(e) /\ post = expected(x)),
        C11_error_mode_raises_collision |-> (~degenerate /\ coll # {} /\ cmode = "error") => e.st = "CollisionError",
+       C11_error_mode_leaves_the_tier_as_it_was |-> (~degenerate /\ coll # {} /\ cmode = "error") => e.post = e.pre,
        C11_replace_removes_exactly_colliders |-> (~degenerate /\ coll # {} /\ cmode = "replace") => (Ok(e) /\ post = expected(x)),
        C11_merge_joint_extent_and_labels |-> (~degenerate /\ coll # {} /\ cmode = "merge") =>
                                                (Ok(e) /\ (post = expected(ext(lab1)) \/ post = expected(ext(lab2)))),
@@ -252,6 +253,8 @@ InsertClausesP(e) ==
   IN [ C13_invalid_option_value_rejected |-> badopt => ~Ok(e),
        C11_no_collision_adds_entry |-> (~badopt /\ coll = {}) => (Ok(e) /\ post = expected(x)),
        C11_error_mode_raises_collision |-> (~badopt /\ coll # {} /\ cmode = "error") => e.st = "CollisionError",
+       \* the span grows "to contain the new entry": an entry that was refused is not in the tier, and nothing grows for it
+       C11_error_mode_leaves_the_tier_as_it_was |-> (~badopt /\ coll # {} /\ cmode = "error") => e.post = e.pre,
        C11_replace_removes_exactly_colliders |-> (~badopt /\ coll # {} /\ cmode = "replace") => (Ok(e) /\ post = expected(x)),
        C11_merge_joint_extent_and_labels |-> (~badopt /\ coll # {} /\ cmode = "merge") => (Ok(e) /\ post = expected(Pt(x.t, oldl \o "-" \o x.l))),
        C11_span_is_hull |-> Ok(e) => (e.post.lo = Min2(e.pre.lo, x.t) /\ e.post.hi = Max2(e.pre.hi, x.t)),
